@@ -29,6 +29,16 @@ class Oracle:
         return c
 
 
+class SetupVerdict(Exception):
+    """Raised while a scenario is being built through the library's own code: the history the case is about cannot
+    be produced although the scenario's premises say it must be (the verdict of the case, whatever the function
+    under test would do afterwards)."""
+
+    def __init__(self, sig, detail):
+        super().__init__(sig)
+        self.sig, self.detail = sig, detail
+
+
 class Outcome:
     def __init__(self, kind, value=None, exc=None, state=None, trace=None):
         self.kind = kind        # 'return' | 'raise'
@@ -38,6 +48,8 @@ class Outcome:
         self.trace = trace or []
 
     def brief(self):
+        if self.kind == "setup-verdict":
+            return f"scenario: {self.verdict[0]}"
         if self.kind == "return":
             return f"return {self.value!r}"
         return f"raise {self.exc!r}"
